@@ -35,6 +35,16 @@ GLOBAL_TABLE = {
 }
 
 
+def _rooted_at_self(t: ast.expr, self_name: str) -> bool:
+    """self.x  or  self.x.y ... (a field of the object or of a settings object it owns)"""
+    if not isinstance(t, ast.Attribute):
+        return False
+    b = t.value
+    while isinstance(b, ast.Attribute):
+        b = b.value
+    return isinstance(b, ast.Name) and b.id == self_name
+
+
 def is_pure_setter(m: Func) -> bool:
     """def set_x(self, a, b): self.x = a; self.y = b   (docstring / bare return allowed)."""
     params = {p.name for p in m.params}
@@ -47,7 +57,7 @@ def is_pure_setter(m: Func) -> bool:
         if isinstance(st, (ast.Assign, ast.AnnAssign)):
             tg = st.targets if isinstance(st, ast.Assign) else [st.target]
             val = st.value
-            if all(isinstance(t, ast.Attribute) and isinstance(t.value, ast.Name) and t.value.id == m.self_name for t in tg) and isinstance(val, ast.Name) and val.id in params and val.id != m.self_name:
+            if all(_rooted_at_self(t, m.self_name) for t in tg) and isinstance(val, ast.Name) and val.id in params and val.id != m.self_name:
                 continue
         return False
     return True
@@ -190,13 +200,36 @@ def check_constructor_args(ctx: Ctx):
     it3 = EvalInterp(prog, init, {"expected_input": member}, self_obj=fresh, metrics=ms)
     it3.root.no_inline = set()
     it3.run()
-    k = "_Panoptica_Evaluator__eval_metrics"
-    a, b = o2.attrs.get(k), fresh.attrs.get(k)
     def mname(x):
         return x.attrs.get("_name_") if isinstance(x, Obj) else getattr(x, "member", repr(x))
 
-    same = isinstance(a, list) and isinstance(b, list) and [mname(m) for m in a] == [mname(m) for m in b]
-    ctx.decide("R15.3", init, init.node, f"{init.qual}:shared-defaults", "an evaluator built with default metric lists is the same whatever was constructed before (default lists are not modified)", same, {"after_history": [mname(m) for m in a] if isinstance(a, list) else repr(a), "fresh": [mname(m) for m in b] if isinstance(b, list) else repr(b)})
+    def state(x, depth=0, seen=None):
+        """the object's state as nested plain data, wherever it keeps it (own attributes, a settings
+        object, a dict): metric members by name, containers by content"""
+        seen = seen if seen is not None else set()
+        if isinstance(x, Obj):
+            if "_name_" in x.attrs:
+                return ("member", x.cls.name, x.attrs["_name_"])
+            if id(x) in seen or depth > 4:
+                return ("obj", x.cls.name)
+            seen = seen | {id(x)}
+            return ("obj", x.cls.name, tuple(sorted((k, state(v, depth + 1, seen)) for k, v in x.attrs.items())))
+        if isinstance(x, (list, tuple)):
+            return (type(x).__name__, tuple(state(v, depth + 1, seen) for v in x))
+        if isinstance(x, dict):
+            return ("dict", tuple(sorted((repr(k), state(v, depth + 1, seen)) for k, v in x.items())))
+        return repr(x)
+
+    sa, sb = state(o2), state(fresh)
+    lists_a = [m for m in repr(sa).split("'list'")]
+    has_lists = len(lists_a) > 1
+    unknown = "Unknown(" in repr(sa) or "Unknown(" in repr(sb)
+    same = (sa == sb) if has_lists and not unknown else (None if unknown or not has_lists else False)
+    diff = None
+    if same is False:
+        fa, fb = dict(sa[2]) if len(sa) > 2 else {}, dict(sb[2]) if len(sb) > 2 else {}
+        diff = {k: {"after_history": repr(fa.get(k))[:160], "fresh": repr(fb.get(k))[:160]} for k in sorted(set(fa) | set(fb)) if fa.get(k) != fb.get(k)}
+    ctx.decide("R15.3", init, init.node, f"{init.qual}:shared-defaults", "an evaluator built with default metric lists is the same whatever was constructed before (default lists are not modified)", same, diff if diff else ({"state": "no list-valued state found / unmodelled value in the state"} if same is None else None))
     # aggregator must not extend the evaluator's advertised keys
     keys = list(KEYS)
     fs = FS()
@@ -285,6 +318,8 @@ def check_state_writers(ctx: Ctx):
                     for x in ast.walk(t):
                         if isinstance(x, ast.Attribute) and isinstance(x.value, ast.Name) and x.value.id == m.self_name and isinstance(x.ctx, ast.Store):
                             hit = x
+                    if hit is None and isinstance(t, ast.Attribute) and _rooted_at_self(t, m.self_name):
+                        hit = t  # self.<settings>.<field> = ...: state of an object this one owns
                 if isinstance(node, ast.Call) and isinstance(node.func, ast.Attribute) and node.func.attr in ("append", "extend", "update", "clear", "pop", "insert", "remove", "setdefault") and isinstance(node.func.value, ast.Attribute) and isinstance(node.func.value.value, ast.Name) and node.func.value.value.id == m.self_name:
                     hit = node.func.value
                 if hit is not None:
